@@ -12,6 +12,8 @@ import EinoV.Proofs.C03
 import EinoV.Gen.FactsC03
 import EinoV.Expected.C03
 import EinoV.Proofs.C03Engine
+import EinoV.Model.C03Loop
+import EinoV.Proofs.C03Loop
 
 namespace EinoV.C03
 open EinoV.Gen
@@ -389,6 +391,178 @@ theorem resolve_needs_distinct_keys :
     let a : CTask Nat := ⟨"a", [], ["c"], [], 1⟩
     let a' : CTask Nat := ⟨"a", [], ["c"], [], 2⟩
     cellOf [a, a'] "c" "a" ≠ cellOf [a', a] "c" "a" := by decide
+
+/-! ## `submit` with failing pre-processors, and the interrupt path of the run loop
+
+  Model: `Model/C03Loop.lean`.  Two more source facts: `submitPreprocessesFirst` (`submit`
+  runs the pre-processors of ALL tasks before anything is started) and
+  `interruptPathWaitsAll` (the run loop collects with `tm.waitAll()` before it stops for an
+  interrupt-before / interrupt-after point). -/
+
+/-- the loop facts as regenerated from compose/graph_manager.go and compose/graph_run.go -/
+def genLoopFacts : LoopFacts :=
+  { submitPreprocessesFirst := FactsC03.submitPreprocessesFirst
+    interruptPathWaitsAll := FactsC03.interruptPathWaitsAll }
+
+/-- The regenerated loop facts are the ones the theorems below are proved for and the oracle
+    runs the model with. -/
+theorem loop_facts_match : genLoopFacts = Expected.C03.loopFacts := by decide
+
+/-- **submit_fail_starts_nothing.** For every reachable state of the task manager, every
+    list of tasks and every set of tasks whose pre-processor (state pre-handler) fails: if
+    `submit` returns the error, it has not changed the task manager — no execution of that step
+    has been started, `num` is what it was.  In particular, when everything of the earlier
+    steps had been collected (`num = 0`, always the case in batch mode), the run returns with
+    `num = 0`, nothing running, nothing queued, and every execution that was ever started
+    collected exactly once. -/
+theorem submit_fail_starts_nothing (needAll : Bool) (s s' : St) (ts bad : List Task)
+    (h : Reachable genFacts needAll s)
+    (hsub : submitP genFacts genLoopFacts needAll s ts bad = some (s', true)) :
+    s' = s ∧ (s.num = 0 → s'.num = 0 ∧ s'.running = [] ∧ s'.l = [] ∧ s'.ch = [] ∧
+      s'.got.Perm s'.submitted) := by
+  have hs : s' = s := submitP_first_fail (L := genLoopFacts) (by decide) hsub
+  subst hs
+  refine ⟨rfl, fun hn => ?_⟩
+  have hc := (reachable_inv facts_good h).count
+  rw [hn] at hc
+  exact ⟨hn, List.eq_nil_of_length_eq_zero (by omega), List.eq_nil_of_length_eq_zero (by omega),
+    List.eq_nil_of_length_eq_zero (by omega), tm_exactly_once needAll s' h hn⟩
+
+/-- **submit_ok_is_submit.** When no pre-processor fails, `submit` is the `submit` step of the
+    transition system (so every protocol theorem above applies to what follows). -/
+theorem submit_ok_is_submit (needAll : Bool) (s s' : St) (ts bad : List Task)
+    (hsub : submitP genFacts genLoopFacts needAll s ts bad = some (s', false)) :
+    step genFacts needAll s (.submit ts) = some s' ∧ ts.any bad.contains = false :=
+  submitP_first_ok (L := genLoopFacts) (by decide) hsub
+
+/-- non-vacuity: a second step `[3, 4, 5]` whose second pre-processor fails, after a first
+    step that has been collected (batch mode) -/
+example :
+    ∃ s, Reachable genFacts true s ∧ s.num = 0 ∧ s.got = [2, 1] ∧
+      submitP genFacts genLoopFacts true s [3, 4, 5] [4] = some (s, true) :=
+  ⟨⟨[], [], [], 0, .idle, [2, 1], [1, 2], []⟩,
+   ⟨[.submit [1, 2], .finish 2 false, .finish 1 false, .recv, .refill, .recv, .refill], by decide⟩,
+   rfl, rfl, by decide⟩
+
+/-- Each task started right after its own pre-processor (`submitPreprocessesFirst = false`).
+    Batch mode, tasks `[1, 2, 3]`, the pre-processor of 3 fails: the goroutine tasks are
+    handled first, 2 has been started when `submit` returns the error; the run loop returns
+    with `num = 1`, execution 2 running and never collected.  Eager mode, the pre-processor
+    of 2 fails: execution 1 is abandoned.  With the facts of the unchanged tree both calls
+    leave the task manager untouched. -/
+theorem submit_fail_leaks_when_interleaved :
+    (∃ s, submitP Expected.C03.facts { Expected.C03.loopFacts with submitPreprocessesFirst := false }
+            true St.init [1, 2, 3] [3] = some (s, true) ∧
+        s.running = [2] ∧ s.num = 1 ∧ s.submitted = [2] ∧ s.got = []) ∧
+    (∃ s, submitP Expected.C03.facts { Expected.C03.loopFacts with submitPreprocessesFirst := false }
+            false St.init [1, 2, 3] [2] = some (s, true) ∧
+        s.running = [1] ∧ s.num = 1 ∧ s.submitted = [1] ∧ s.got = []) ∧
+    submitP Expected.C03.facts Expected.C03.loopFacts true St.init [1, 2, 3] [3] = some (St.init, true) ∧
+    submitP Expected.C03.facts Expected.C03.loopFacts false St.init [1, 2, 3] [2] = some (St.init, true) := by
+  refine ⟨⟨⟨[2], [], [], 1, .idle, [], [2], []⟩, by decide, rfl, rfl, rfl, rfl⟩,
+          ⟨⟨[1], [], [], 1, .idle, [], [1], []⟩, by decide, rfl, rfl, rfl, rfl⟩, by decide, by decide⟩
+
+/-- **interrupt_path_collects_all.** For every reachable state (any schedule so far, batch or
+    eager) and every schedule of executor and collector steps that follows: when the
+    collecting call of the interrupt path returns, nothing is outstanding — `num = 0`, no
+    execution running, none queued in the list or the channel — and everything ever submitted
+    has been received exactly once.  (The run loop then writes the checkpoint and returns the
+    interrupt.) -/
+theorem interrupt_path_collects_all (needAll : Bool) (k : Nat) (s s' : St) (evs : List Ev)
+    (h : Reachable genFacts needAll s)
+    (hp : interruptPath genFacts genLoopFacts needAll k s evs = some s') :
+    s'.num = 0 ∧ s'.running = [] ∧ s'.l = [] ∧ s'.ch = [] ∧ s'.got.Perm s'.submitted ∧
+    Reachable genFacts needAll s' := by
+  obtain ⟨pre, suf, k', _, _, hr, hret⟩ := interruptPath_spec evs hp
+  have hreach := reachable_run h hr
+  have hw : genLoopFacts.interruptPathWaitsAll = true := by decide
+  have hn : s'.num = 0 := by
+    simp only [pathReturns, hw, Bool.true_or, Bool.not_true, Bool.false_and, Bool.or_false,
+      Bool.and_eq_true, beq_iff_eq] at hret
+    exact hret.2
+  have hc := (reachable_inv facts_good hreach).count
+  rw [hn] at hc
+  exact ⟨hn, List.eq_nil_of_length_eq_zero (by omega), List.eq_nil_of_length_eq_zero (by omega),
+    List.eq_nil_of_length_eq_zero (by omega), tm_exactly_once needAll s' hreach hn, hreach⟩
+
+/-- **interrupt_path_returns.** The interrupt path does return: along every schedule without
+    a further `submit` that runs until no executor and no collector step is possible any more
+    (node bodies terminate), the collecting call has returned. -/
+theorem interrupt_path_returns (needAll : Bool) (k : Nat) (s s'' : St) (evs : List Ev)
+    (h : Reachable genFacts needAll s) (hns : ∀ e ∈ evs, e.isSubmit = false)
+    (hr : run genFacts needAll s evs = some s'')
+    (hstuck : ∀ e, e.isSubmit = false → step genFacts needAll s'' e = none) :
+    ∃ s', interruptPath genFacts genLoopFacts needAll k s evs = some s' := by
+  have := interruptPath_returns facts_good (L := genLoopFacts) (k := k) evs
+    (reachable_inv facts_good h) hns hr hstuck
+  exact Option.isSome_iff_exists.1 this
+
+/-- non-vacuity: eager mode, execution 1 (the interrupt-after node) has been received while 2
+    and 3 are still running; the interrupt path returns only after both have been received -/
+example :
+    ∃ s, Reachable genFacts false s ∧ s.running = [2, 3] ∧ s.got = [1] ∧
+      interruptPath genFacts genLoopFacts false 0 s [.finish 2 false, .recv, .refill] = none ∧
+      ∃ s', interruptPath genFacts genLoopFacts false 0 s
+              [.finish 2 false, .recv, .refill, .finish 3 false, .recv, .refill] = some s' ∧
+        s'.num = 0 ∧ s'.got = [1, 2, 3] :=
+  ⟨⟨[2, 3], [], [], 2, .idle, [1], [1, 2, 3], []⟩,
+   ⟨[.submit [1, 2, 3], .finish 1 false, .recv, .refill], by decide⟩, rfl, rfl, by decide,
+   ⟨[], [], [], 0, .idle, [1, 2, 3], [1, 2, 3], []⟩, by decide, rfl, rfl⟩
+
+/-- `tm.wait()` instead of `tm.waitAll()` on the interrupt path (`interruptPathWaitsAll =
+    false`), eager mode: three executions, 1 (the interrupt node) received first; the path
+    receives ONE more completion (2) and returns with `num = 1` while execution 3 is still
+    running: 3 is never collected.  In batch mode the same fact changes nothing (`wait` is
+    `waitAll`). -/
+theorem interrupt_path_abandons_with_wait :
+    (∃ s', interruptPath Expected.C03.facts { Expected.C03.loopFacts with interruptPathWaitsAll := false }
+            false 0 ⟨[2, 3], [], [], 2, .idle, [1], [1, 2, 3], []⟩
+            [.finish 2 false, .recv, .refill, .finish 3 false, .recv, .refill] = some s' ∧
+        s'.num = 1 ∧ s'.running = [3] ∧ s'.got = [1, 2] ∧ s'.submitted = [1, 2, 3]) ∧
+    run Expected.C03.facts false St.init [.submit [1, 2, 3], .finish 1 false, .recv, .refill]
+      = some ⟨[2, 3], [], [], 2, .idle, [1], [1, 2, 3], []⟩ ∧
+    (∃ s', interruptPath Expected.C03.facts { Expected.C03.loopFacts with interruptPathWaitsAll := false }
+            true 0 ⟨[2, 3], [], [], 2, .idle, [1], [1, 2, 3], []⟩
+            [.finish 2 false, .recv, .refill, .finish 3 false, .recv, .refill] = some s' ∧ s'.num = 0) := by
+  refine ⟨⟨⟨[3], [], [], 1, .idle, [1, 2], [1, 2, 3], []⟩, by decide, rfl, rfl, rfl, rfl⟩, by decide,
+          ⟨⟨[], [], [], 0, .idle, [1, 2, 3], [1, 2, 3], []⟩, by decide, rfl⟩⟩
+
+/-! ### engine level: graphs compiled with interrupt-before / interrupt-after nodes -/
+
+/-- **interrupted_invoke_collects_all.** For every acyclic graph, every interrupt-before /
+    interrupt-after node set, every completion priority, batch or eager: every Invoke of the
+    run-and-resume sequence that ends in an interrupt has collected every execution it (or an
+    earlier Invoke) started. -/
+theorem interrupted_invoke_collects_all (c : ICfg) :
+    ∀ w ∈ iAll c genLoopFacts, ∀ b a p, w.out = .interrupt b a p → iUncollected w.st = [] := by
+  intro w hw b a p hout
+  have hL : (genLoopFacts.interruptPathWaitsAll || !c.eager) = true := by
+    have : genLoopFacts.interruptPathWaitsAll = true := by decide
+    simp [this]
+  exact iUncollected_nil_of_covered
+    (iRuns_interrupt_covered c hL _ _ (fun b a p h => iFirst_interrupt_covered c hL b a p h) w hw b a p hout)
+
+/-- the shape of seeded regression C03-11: START → {r, x, y} → j → END, interrupt after r -/
+def intrCase (order : List Key) : ICfg :=
+  { g := { nodes := [⟨"r", ["start"]⟩, ⟨"x", ["start"]⟩, ⟨"y", ["start"]⟩, ⟨"j", ["r", "x", "y"]⟩],
+           endPreds := ["j"], input := "in" },
+    eager := true, before := [], after := ["r"], order := order }
+
+/-- **interrupted_invoke_abandons_with_wait** (negation at engine level).  With `wait` on the
+    interrupt path the first Invoke reports the interrupt after `r` and returns with `y`
+    started but never collected when `r` is collected first; when `r` is collected last nothing
+    is lost — the outcome depends on the completion order.  With the facts of the unchanged
+    tree both orders collect everything, and the resumed run executes `j`. -/
+theorem interrupted_invoke_abandons_with_wait :
+    let bad : LoopFacts := { Expected.C03.loopFacts with interruptPathWaitsAll := false }
+    ((iFirst (intrCase ["r", "x", "y", "j"]) bad).out = .interrupt [] ["r"] [] ∧
+      iUncollected (iFirst (intrCase ["r", "x", "y", "j"]) bad).st = ["y"]) ∧
+    ((iFirst (intrCase ["x", "y", "r", "j"]) bad).out = .interrupt [] ["r"] ["j"] ∧
+      iUncollected (iFirst (intrCase ["x", "y", "r", "j"]) bad).st = []) ∧
+    ((iFirst (intrCase ["r", "x", "y", "j"]) Expected.C03.loopFacts).out = .interrupt [] ["r"] ["j"] ∧
+      iUncollected (iFirst (intrCase ["r", "x", "y", "j"]) Expected.C03.loopFacts).st = [] ∧
+      (iAll (intrCase ["r", "x", "y", "j"]) Expected.C03.loopFacts).map (·.out)
+        = [.interrupt [] ["r"] ["j"], .ok]) := by decide
 
 /-- **pregel_run_schedule_independent** (engine level). For every any-predecessor runner of the
     engine model (`Model/Engine.lean`) with distinct keys and an order-insensitive merge: a run
